@@ -477,8 +477,10 @@ row('LIST.GET', ['C19'], takes=[('int', 1)], touches=['exec'], clauses=[
     ('{C19,C10}unfired.exec', '!(S0.int.len() >= 1 && S0.code.len() >= 1 && %s is List) ==> S1.exec == S0.exec' % _rec)])
 # BVAL / IVAL / FVAL: operands (record address = second, n = top); the record address is clamped; value: see spec fn nth_of_kind
 _k2 = 'clamp_idx(top(S0.int, 1) as int, S0.code.len() as int)'
-for nm, st in [('LIST.BVAL', 'bool'), ('LIST.IVAL', 'int'), ('LIST.FVAL', 'float')]:
-    row(nm, ['C19'], takes=[('int', 2)], guard='S0.code.len() >= 1', pushes=[(st, None)])
+# n = top integer reinterpreted as an unsigned count (a negative n addresses nothing: the default is returned)
+for nm, st, fn in [('LIST.BVAL', 'bool', 'nth_bool'), ('LIST.IVAL', 'int', 'nth_int'), ('LIST.FVAL', 'float', 'nth_float')]:
+    row(nm, ['C19'], takes=[('int', 2)], guard='S0.code.len() >= 1',
+        pushes=[(st, 'crate::push::item::%s(top(S0.code, %s), top(S0.int, 0) as usize as nat)' % (fn, _k2))])
 # ADD / SET move items between all typed stacks (footprint: every stack a stack id can name, and CODE)
 _typed = ['bool', 'boolvec', 'code', 'exec', 'float', 'floatvec', 'int', 'intvec', 'name']
 row('LIST.ADD', ['C19'], touches=_typed, clauses=[
@@ -603,8 +605,8 @@ row('FLOAT.RAND', ['C13'], fired='f32_lt(S0.config.min_random_float, S0.config.m
     clauses=[('fired.value.float.0', 'f32_lt(S0.config.min_random_float, S0.config.max_random_float) ==> '
               'f32_le(S0.config.min_random_float, top(S1.float, 0)) && f32_lt(top(S1.float, 0), S0.config.max_random_float)')])
 row('NAME.RAND', ['C13'], pushes=[('name', None)])
-row('NAME.RANDBOUNDNAME', ['C13'], pushes=[('name', None)],
-    clauses=[('fired.value.name.0', 'S0.bindings.dom().len() > 0 ==> S0.bindings.contains_key(top(S1.name, 0))')])
+# "returns a currently bound name whenever one exists": existing_random_name collects keys().cloned() -- outside Verus (not decided)
+row('NAME.RANDBOUNDNAME', ['C13'], pushes=[('name', None)])
 row('CODE.RAND', ['C12'], takes=[('int', 1)], touches=['code'], clauses=[kept('code', 0, 1), ('{C12,C10}unfired.code', 'S0.int.len() == 0 ==> S1.code == S0.code')])
 row('BOOLVECTOR.RAND', ['C13'], takes=[('int', 1), ('float', 1)], touches=['boolvec'], clauses=[kept('boolvec', 0, 1),
     ('{C13,C10}unfired.boolvec', '!(S0.int.len() >= 1 && S0.float.len() >= 1) ==> S1.boolvec == S0.boolvec')])
@@ -619,3 +621,13 @@ FN_OVERLAYS['code::code_position'] = dict(proofs={'body_start': '''        proof
             }
         }
 '''})
+
+# the envelope's per-item point bound, instantiated for every CODE item (LIST.*VAL / NEIGHBOR*VALS address records by position)
+_code_bound = '''        proof {
+            assert forall|i: int| 0 <= i < push_state.code_stack@.len() implies crate::push::item::points(#[trigger] push_state.code_stack@[i]) < 0x7fff_ffff by {}
+        }
+'''
+for _p in ['list::list_bval', 'list::list_ival', 'list::list_fval', 'list::list_neighbor_bvals', 'list::list_neighbor_ivals', 'list::list_neighbor_fvals']:
+    FN_OVERLAYS.setdefault(_p, {}).setdefault('proofs', {})['body_start'] = _code_bound
+for _p in ['list::list_neighbor_bvals', 'list::list_neighbor_ivals', 'list::list_neighbor_fvals']:
+    FN_OVERLAYS[_p]['attrs'] = '#[verifier::loop_isolation(false)]\n'
